@@ -44,4 +44,118 @@ __CPROVER_ensures((RV != NNG_OK && g_k == g_exit) ==> U8_WIN_BAD_NEAR)
     /* clang-format on */
     ;
 
+/* ---- url_hex_val -------------------------------------------------------- */
+static uint8_t url_hex_val(char c)
+    /* clang-format off */
+__CPROVER_assigns()
+__CPROVER_ensures(RV <= 15)
+__CPROVER_ensures((c >= '0' && c <= '9') ==> RV == c - '0')
+__CPROVER_ensures((c >= 'A' && c <= 'F') ==> RV == 10 + (c - 'A'))
+__CPROVER_ensures((c >= 'a' && c <= 'f') ==> RV == 10 + (c - 'a'))
+    /* clang-format on */
+    ;
+
+/* ---- nni_url_clone_inline / nng_url_clone --------------------------------
+ * C19: "nng_url_clone yields an equal, independent URL whatever its length".
+ * Source: any well-shaped URL, inline or heap storage, hostname / userinfo /
+ * query / fragment each NULL or inside the storage, path inside the storage.
+ * ASSUMED: the destination structure is zero-initialised (every caller hands
+ * in memory from nni_zalloc).
+ *  equal       : scheme, port, storage size, every storage byte (ghost g_k /
+ *                g_b), every component NULL iff the source's is, else at the
+ *                same offset;
+ *  independent : components point into the clone's OWN storage (its u_static
+ *                or a fresh heap block), the source is not assigned;
+ *  errors      : only NNG_ENOMEM, only when the allocator refused a non-empty
+ *                request, and then nothing is left allocated. */
+#define URL_SRC_PRE(src)                                                      \
+	(__CPROVER_is_fresh(src, sizeof(nng_url)) && URL_STORAGE_PRE(src) &&  \
+	    URL_COMP_PRE(src, u_hostname) && URL_COMP_PRE(src, u_userinfo) && \
+	    URL_COMP_PRE(src, u_query) && URL_COMP_PRE(src, u_fragment) &&    \
+	    __CPROVER_pointer_in_range_dfcc((src)->u_buffer, (src)->u_path,   \
+	        (src)->u_buffer + (URL_STORE(src) - 1)))
+#define URL_ZEROED(d)                                                        \
+	((d)->u_scheme == NULL && (d)->u_userinfo == NULL &&                 \
+	    (d)->u_hostname == NULL && (d)->u_port == 0 &&                   \
+	    (d)->u_path == NULL && (d)->u_query == NULL &&                   \
+	    (d)->u_fragment == NULL && (d)->u_buffer == NULL && (d)->u_bufsz == 0)
+/* one clause per component: a single conjunction of guarded dereferences
+ * makes goto conversion exponential */
+#define URL_CLONE_POST_CLAUSES(d, src)                                                   \
+	__CPROVER_ensures(RV == NNG_OK ==> ((d)->u_scheme == (src)->u_scheme && (d)->u_port == (src)->u_port && (d)->u_bufsz == (src)->u_bufsz)) \
+	__CPROVER_ensures(RV == NNG_OK ==> URL_COMP_CLONED(d, src, u_hostname))           \
+	__CPROVER_ensures(RV == NNG_OK ==> URL_COMP_CLONED(d, src, u_userinfo))           \
+	__CPROVER_ensures(RV == NNG_OK ==> URL_COMP_CLONED(d, src, u_query))              \
+	__CPROVER_ensures(RV == NNG_OK ==> URL_COMP_CLONED(d, src, u_fragment))           \
+	__CPROVER_ensures(RV == NNG_OK ==> URL_COMP_CLONED(d, src, u_path))
+
+nng_err nni_url_clone_inline(nng_url *dst, const nng_url *src)
+    /* clang-format off */
+__CPROVER_requires(URL_SRC_PRE(src))
+__CPROVER_requires(__CPROVER_is_fresh(dst, sizeof(nng_url)) && URL_ZEROED(dst))
+__CPROVER_requires(g_k < URL_STORE(src) ==> g_b == U8P(src->u_buffer)[g_k])
+__CPROVER_assigns(*dst, g_alloc_ok, g_alloc_refused)
+__CPROVER_ensures(RV == NNG_OK || RV == NNG_ENOMEM)
+__CPROVER_ensures(RV == NNG_ENOMEM ==> (src->u_bufsz != 0 && g_alloc_refused == OLD(g_alloc_refused) + 1 && g_alloc_ok == OLD(g_alloc_ok)))
+__CPROVER_ensures(RV == NNG_OK ==> g_alloc_refused == OLD(g_alloc_refused))
+__CPROVER_ensures(RV == NNG_OK ==> g_alloc_ok == OLD(g_alloc_ok) + (src->u_bufsz != 0 ? 1 : 0))
+__CPROVER_ensures((RV == NNG_OK && src->u_bufsz != 0) ==> __CPROVER_is_fresh(dst->u_buffer, src->u_bufsz))
+__CPROVER_ensures((RV == NNG_OK && src->u_bufsz == 0) ==> dst->u_buffer == &dst->u_static[0])
+URL_CLONE_POST_CLAUSES(dst, src)
+__CPROVER_ensures((RV == NNG_OK && g_k < URL_STORE(src)) ==> U8P(dst->u_buffer)[g_k] == g_b)
+    /* clang-format on */
+    ;
+
+nng_err nng_url_clone(nng_url **dstp, const nng_url *src)
+    /* clang-format off */
+__CPROVER_requires(URL_SRC_PRE(src))
+__CPROVER_requires(__CPROVER_is_fresh(dstp, sizeof(*dstp)))
+__CPROVER_requires(g_k < URL_STORE(src) ==> g_b == U8P(src->u_buffer)[g_k])
+__CPROVER_assigns(*dstp, g_alloc_ok, g_alloc_refused, g_free_calls)
+__CPROVER_ensures(RV == NNG_OK || RV == NNG_ENOMEM)
+/* failure: the caller's pointer is untouched, memory really was refused, nothing leaked */
+__CPROVER_ensures(RV != NNG_OK ==> *dstp == OLD(*dstp))
+__CPROVER_ensures(RV != NNG_OK ==> g_alloc_refused == OLD(g_alloc_refused) + 1)
+__CPROVER_ensures(RV != NNG_OK ==> (g_alloc_ok - OLD(g_alloc_ok) == g_free_calls - OLD(g_free_calls)))
+/* success: a fresh structure owning exactly its own storage */
+__CPROVER_ensures(RV == NNG_OK ==> (g_alloc_refused == OLD(g_alloc_refused) && g_free_calls == OLD(g_free_calls)))
+__CPROVER_ensures(RV == NNG_OK ==> g_alloc_ok == OLD(g_alloc_ok) + (src->u_bufsz != 0 ? 2 : 1))
+__CPROVER_ensures(RV == NNG_OK ==> __CPROVER_is_fresh(*dstp, sizeof(nng_url)))
+__CPROVER_ensures((RV == NNG_OK && src->u_bufsz != 0) ==> __CPROVER_is_fresh((*dstp)->u_buffer, src->u_bufsz))
+__CPROVER_ensures((RV == NNG_OK && src->u_bufsz == 0) ==> (*dstp)->u_buffer == &(*dstp)->u_static[0])
+URL_CLONE_POST_CLAUSES(*dstp, src)
+__CPROVER_ensures((RV == NNG_OK && g_k < URL_STORE(src)) ==> U8P((*dstp)->u_buffer)[g_k] == g_b)
+    /* clang-format on */
+    ;
+
+/* ---- nni_url_parse_inline_inner -------------------------------------------
+ * C19: "accepts a string only if it has a known scheme followed by ://".
+ * Input: any object of g_n+1 bytes ending in 0 (g_n <= URL_STR_CAP, grade Pb).
+ * ASSUMED: the nng_url is zero-initialised (callers use nni_zalloc; the
+ * parser itself tests u_scheme == NULL after the table search).
+ *  accept => u_scheme is an entry of the scheme table, and the input starts
+ *            with EXACTLY that entry followed by "://" (g_j free ghost: if
+ *            g_j is inside the entry the bytes agree, if g_j is its length
+ *            the input continues with "://");
+ *            storage is the inline array (input shorter than 128), every
+ *            component is NULL or points into it, path is not NULL;
+ *  reject => one of the documented codes. */
+static nng_err nni_url_parse_inline_inner(nng_url *url, const char *raw)
+    /* clang-format off */
+__CPROVER_requires(__CPROVER_is_fresh(url, sizeof(nng_url)) && URL_ZEROED(url))
+__CPROVER_requires(g_n < URL_STR_MAX && __CPROVER_is_fresh(raw, g_n + 1) && raw[g_n] == 0)
+__CPROVER_assigns(*url, g_alloc_ok, g_alloc_refused, g_exit)
+__CPROVER_ensures(RV == NNG_OK || RV == NNG_EINVAL || RV == NNG_ENOTSUP || RV == NNG_ENOMEM)
+__CPROVER_ensures(RV == NNG_OK ==> __CPROVER_exists { int vp_s; (0 <= vp_s && vp_s < URL_NSCHEMES) && url->u_scheme == nni_schemes[vp_s] })
+__CPROVER_ensures((RV == NNG_OK && g_j < URL_SCHEME_MAXLEN && SCH_NO_NUL_UPTO(url->u_scheme, g_j, vp_i1)) ==> (g_j < g_n && raw[g_j] == url->u_scheme[g_j]))
+__CPROVER_ensures((RV == NNG_OK && g_j <= URL_SCHEME_MAXLEN && SCH_LEN_IS(url->u_scheme, g_j, vp_i2)) ==> (g_j + 2 < g_n && raw[g_j] == ':' && raw[g_j + 1] == '/' && raw[g_j + 2] == '/'))
+__CPROVER_ensures((RV == NNG_OK && g_n < URL_INLINE_SZ) ==> (url->u_bufsz == 0 && url->u_buffer == &url->u_static[0]))
+__CPROVER_ensures((RV == NNG_OK && g_n < URL_INLINE_SZ) ==> (url->u_path != NULL && __CPROVER_same_object(url->u_path, url->u_buffer)))
+__CPROVER_ensures((RV == NNG_OK && g_n < URL_INLINE_SZ) ==> (url->u_hostname == NULL || __CPROVER_same_object(url->u_hostname, url->u_buffer)))
+__CPROVER_ensures((RV == NNG_OK && g_n < URL_INLINE_SZ) ==> (url->u_userinfo == NULL || __CPROVER_same_object(url->u_userinfo, url->u_buffer)))
+__CPROVER_ensures((RV == NNG_OK && g_n < URL_INLINE_SZ) ==> (url->u_query == NULL || __CPROVER_same_object(url->u_query, url->u_buffer)))
+__CPROVER_ensures((RV == NNG_OK && g_n < URL_INLINE_SZ) ==> (url->u_fragment == NULL || __CPROVER_same_object(url->u_fragment, url->u_buffer)))
+    /* clang-format on */
+    ;
+
 #endif
